@@ -756,7 +756,9 @@ pub fn run_live(args: &Args, report: &mut Report) {
         }));
     }
     for h in handles {
-        let _ = h.join();
+        if h.join().is_err() {
+            report.inconclusive.push("HARNESS-PANIC: a live worker thread panicked (its results are lost)".into());
+        }
     }
     let m = Arc::try_unwrap(merged).ok().unwrap().into_inner();
     report.merge(m);
